@@ -143,8 +143,7 @@ Proof.
     cbn [step]. destruct (find_s sid (c_strs st)) as [s|]; [|discriminate].
     destruct isr. { intros E; inversion E; subst. reflexivity. }
     destruct (o_closed o && qe && (s_buf s =? 0)). { intros E; inversion E; subst. reflexivity. }
-    destruct (if o_pending_open o then Ok (put st (set_parked s false)) [] else clear_queue (put st (set_parked s false)) sid)
-      as [st1 o1|n|n]; try discriminate.
+    destruct (clear_queue (put st (set_parked s false)) sid) as [st1 o1|n|n]; try discriminate.
     intros E. apply q_add_outs_inv in E. destruct E as (o2 & E & ->).
     apply q_add_outs_inv in E. destruct E as (o3 & E & ->).
     apply q_reclaim_all_refines in E. cbn [bind]. rewrite E. reflexivity.
@@ -720,11 +719,9 @@ Proof.
     destruct (find_s sid (c_strs st)) as [s|] eqn:F; [|exact I].
     destruct isr; [apply qpost_same; assumption|].
     destruct (o_closed o && qe && (s_buf s =? 0)); [apply qpost_same; assumption|].
-    destruct (o_pending_open o).
-    + apply qpost_add_outs, qpost_add_outs, q_reclaim_all_post; assumption.
-    + destruct (clear_queue (put st (set_parked s false)) sid) as [st1 o1|n|n] eqn:Ec; try exact I.
-      apply clear_queue_cavail in Ec.
-      apply qpost_add_outs, qpost_add_outs, q_reclaim_all_post; [assumption|]. rewrite Ec. exact Hq.
+    destruct (clear_queue (put st (set_parked s false)) sid) as [st1 o1|n|n] eqn:Ec; try exact I.
+    apply clear_queue_cavail in Ec.
+    apply qpost_add_outs, qpost_add_outs, q_reclaim_all_post; [assumption|]. rewrite Ec. exact Hq.
   - (* LHandleError *)
     destruct (clear_queue st sid) as [st1 o1|n|n] eqn:Ec; try exact I.
     apply clear_queue_cavail in Ec.
@@ -1341,13 +1338,11 @@ Proof.
     destruct (o_closed o && qe && (s_buf s =? 0)); [apply via_same|].
     assert (HA0 : AvNN (put st (set_parked s false))).
     { apply (AvNN_put st s _ HA); simp_s; [rewrite Hid; exact F|reflexivity]. }
-    destruct (o_pending_open o).
-    + apply via_add_outs, via_add_outs, via_reclaim_all. exact HA0.
-    + unfold clear_queue.
-      destruct (find_s sid (c_strs (put st (set_parked s false)))) as [s'|] eqn:F'; [|exact I].
-      pose proof (find_s_id _ _ _ F') as Hid'.
-      apply via_add_outs, via_add_outs, via_reclaim_all.
-      apply (AvNN_put _ s' _ HA0); simp_s; [rewrite Hid'; exact F'|reflexivity].
+    unfold clear_queue.
+    destruct (find_s sid (c_strs (put st (set_parked s false)))) as [s'|] eqn:F'; [|exact I].
+    pose proof (find_s_id _ _ _ F') as Hid'.
+    apply via_add_outs, via_add_outs, via_reclaim_all.
+    apply (AvNN_put _ s' _ HA0); simp_s; [rewrite Hid'; exact F'|reflexivity].
   - (* LHandleError *)
     unfold clear_queue. destruct (find_s sid (c_strs st)) as [s|] eqn:F; [|exact I].
     pose proof (find_s_id _ _ _ F) as Hid.
